@@ -89,7 +89,9 @@ def ethaddr_text_forms(tier, seed):
         [base[:i] + ":" + base[i:] for i in range(len(base) + 1)] + \
         [base.replace(":", "."), base.replace(":", " "), "01:23:45:67:89-ab", "01-23-45-67-89:ab", "0123456789a",
          "0123456789abc", "gg:23:45:67:89:ab", "01:23:45:67:89:zz", "", "::::::", "01:23:45:67:89", "1:2:3:4:5",
-         "01:23:45:67:89:ab:cd", "0x:23:45:67:89:ab", b"\x01\x02\x03\x04\x05", b"\x01\x02\x03\x04\x05\x06\x07"]
+         "01:23:45:67:89:ab:cd", "0x:23:45:67:89:ab", b"\x01\x02\x03\x04\x05", b"\x01\x02\x03\x04\x05\x06\x07",
+         # loose form with a group that does not fit one byte
+         "100:0:0:0:0:0", "1:2:3:4:5:666", "0:0:0:0:0:100"]
   for s in bad:
     if len(s) == 6:
       continue     # six characters / bytes are the raw binary form
@@ -105,7 +107,7 @@ def ethaddr_text_forms(tier, seed):
         want = bytes(int(p, 16) for p in parts) if len(parts) == 6 else bytes.fromhex(txt)
       except Exception:
         return "malformed %r accepted as %s" % (s, e)
-      if len(want) != 6 or any(len(p) > 2 for p in parts if len(parts) == 6) or e.toRaw() != want:
+      if len(want) != 6 or e.toRaw() != want:
         return "malformed %r mis-parsed as %s" % (s, e)
     yield ("malformed=%r" % (s,), t)
 
@@ -244,6 +246,24 @@ def ipv6_text(tier, seed):
       if ip.num != n:
         return "num"
     yield ("ipv6=%032x" % n, t)
+  # construction from an IPv4 address: the IPv4-mapped address ::ffff:a.b.c.d (RFC 4291 2.5.5.2)
+  v4s = set()
+  for pos in range(4):
+    for v in (0, 1, 127, 128, 255):
+      for fill in (0, 0xff):
+        v4s.add(bytes([v if i == pos else fill for i in range(4)]))
+  for _ in range(50):
+    v4s.add(bytes(rng.getrandbits(8) for _ in range(4)))
+  for r4 in sorted(v4s):
+    def t(r4=r4):
+      ip = IPAddr6(IPAddr(r4))
+      want = int(ipaddress.IPv6Address("::ffff:" + str(ipaddress.IPv4Address(r4))))
+      if ip.num != want:
+        return "IPAddr6(IPAddr(%s)) = %s, the IPv4-mapped address is %s" % (ipaddress.IPv4Address(r4), ip,
+                                                                             ipaddress.IPv6Address(want))
+      if not ip.is_ipv4_mapped or ip.to_ipv4().toRaw() != r4:
+        return "IPAddr6(IPAddr(..)) does not convert back"
+    yield ("from-ipv4=%s" % r4.hex(), t)
   some = sorted(nums)[::max(1, len(nums) // (12 if tier == "quick" else 100))]
   for bits in range(129):
     mask = ((1 << bits) - 1) << (128 - bits)
